@@ -278,17 +278,22 @@ fn image_real(toks_a: &[Tok], toks_b: &[Tok], decoys: bool) -> Cfb {
     sa.push(0xCC);
     compress(toks_b, &mut sa);
     let mut mini = Mini::new();
-    let mut directories = Vec::with_capacity(6);
-    if decoys {
+    // (the directory Vec is made with Vec::from(array): CBMC's symbolic execution keeps the entries' names constant that way,
+    // it does not for Vec::with_capacity + push)
+    let directories = if decoys {
         // streams that carry the MODULE names: valid containers with other content; must not be used
         let mut dc: Buf<32> = Buf::new();
         compress(&[Tok::Lit(0x5A)], &mut dc);
-        directories.push(mini.add("A", &dc.b[..dc.n]));
-        directories.push(mini.add("B", &dc.b[..dc.n]));
-    }
-    directories.push(mini.add("SA", &sa.b[..sa.n]));
-    directories.push(Directory { name: String::from("dir"), start: 0, len: DIR_LEN });
-    directories.push(mini.add("SB", &sb.b[..sb.n]));
+        let d_a = mini.add("A", &dc.b[..dc.n]);
+        let d_b = mini.add("B", &dc.b[..dc.n]);
+        let d_sa = mini.add("SA", &sa.b[..sa.n]);
+        let d_sb = mini.add("SB", &sb.b[..sb.n]);
+        Vec::from([d_a, d_b, d_sa, Directory { name: String::from("dir"), start: 0, len: DIR_LEN }, d_sb])
+    } else {
+        let d_sa = mini.add("SA", &sa.b[..sa.n]);
+        let d_sb = mini.add("SB", &sb.b[..sb.n]);
+        Vec::from([d_sa, Directory { name: String::from("dir"), start: 0, len: DIR_LEN }, d_sb])
+    };
     Cfb {
         directories,
         sectors: Sectors::new(SECTOR, DIR_SECTORS.b.to_vec()),
@@ -322,15 +327,20 @@ fn image_model(src_a: &[u8; 3], src_b: &[u8; 2], junk: &[u8; 3], decoys: bool) -
     let sb = [0x01, src_a[0], src_a[1], src_a[2]];
     let sa = [junk[0], junk[1], junk[2], 0x01, src_b[0], src_b[1]];
     let mut mini = Mini::new();
-    let mut directories = Vec::with_capacity(6);
-    directories.push(Directory { name: String::from("Root Entry"), start: ENDOFCHAIN, len: 0 });
-    if decoys {
-        directories.push(mini.add("A", &[0x01, 0x5A]));
-        directories.push(mini.add("B", &[0x01, 0x5B]));
-    }
-    directories.push(mini.add("SA", &sa));
-    directories.push(mini.add("dir", &DIR_MODEL.b[..DIR_MODEL.n]));
-    directories.push(mini.add("SB", &sb));
+    let root = Directory { name: String::from("Root Entry"), start: ENDOFCHAIN, len: 0 };
+    let directories = if decoys {
+        let d_a = mini.add("A", &[0x01, 0x5A]);
+        let d_b = mini.add("B", &[0x01, 0x5B]);
+        let d_sa = mini.add("SA", &sa);
+        let d_dir = mini.add("dir", &DIR_MODEL.b[..DIR_MODEL.n]);
+        let d_sb = mini.add("SB", &sb);
+        Vec::from([root, d_a, d_b, d_sa, d_dir, d_sb])
+    } else {
+        let d_sa = mini.add("SA", &sa);
+        let d_dir = mini.add("dir", &DIR_MODEL.b[..DIR_MODEL.n]);
+        let d_sb = mini.add("SB", &sb);
+        Vec::from([root, d_sa, d_dir, d_sb])
+    };
     Cfb {
         directories,
         sectors: Sectors::new(512, Vec::new()),
@@ -382,6 +392,7 @@ fn wiring_case(decoys: bool) {
 #[kani::unwind(7)]
 #[kani::stub(encoding_rs::Encoding::decode, decode_ascii_1252_stub)]
 #[kani::stub(decompress_stream, decompress_model)]
+#[kani::stub(codepage::to_encoding, to_encoding_1252_stub)]
 pub fn from_cfb_wiring() {
     wiring_case(false);
 }
@@ -476,4 +487,21 @@ pub fn probe_d4() {
 pub fn probe_d5() {
     let a = String::from("dir");
     spin((&*a == "dir") as u8);
+}
+
+#[kani::proof]
+pub fn probe_dir_tail() {
+    let mut cfb = image_model(&[1,2,3], &[4,5], &[6,7,8], false);
+    let mut r: &[u8] = &[];
+    let s = cfb.get_stream("dir", &mut r).unwrap();
+    spin(s[1]);
+    spin(s[114]);
+    spin((s.len() - 290) as u8);
+    let d = decompress_model(&s).unwrap();
+    spin(d[113]);
+    let st = &mut &*d;
+    *st = &st[113..];
+    use byteorder::{LittleEndian, ReadBytesExt};
+    let x = st.read_u16::<LittleEndian>().unwrap();
+    spin(x as u8);
 }
